@@ -162,7 +162,8 @@ func Identical(left, right Object) bool {
 		return math.Float64bits(l.Value) == math.Float64bits(right.(Float).Value)
 	case Function:
 		r := right.(Function)
-		return l.CacheKey == r.CacheKey && l.Env == r.Env
+		sameName := (l.Name == nil) == (r.Name == nil) && (l.Name == nil || l.Name.Literal() == r.Name.Literal())
+		return sameName && l.CacheKey == r.CacheKey && l.Env == r.Env
 	case Array:
 		le, re := l.Elements(), right.(Array).Elements()
 		if len(le) != len(re) {
